@@ -28,7 +28,8 @@ class Sess:
         self.count = 0
         if kind == 'vxlan':
             self.sp, self.dp, self.vni = r.choice([0, 65535, 4789, r.below(65536), r.below(65536)]), r.choice([4789, 0, 65535, 1, r.below(65536)]), r.choice([0, 1, 2 ** 24 - 1, r.below(2 ** 24)])     # zero and all-ones are ordinary values
-            self.decl = 'let %s = vxlan::session(%s:%d, %s:%d, sessionid: %d%s);' % (self.name, ip(self.a), self.sp, ip(self.b), self.dp, self.vni, ', raw: true' if self.raw else '')
+            sid = '' if self.vni == 0 and r.chance(1, 2) else ', sessionid: %d' % self.vni        # 0 is the documented default
+            self.decl = 'let %s = vxlan::session(%s:%d, %s:%d%s%s);' % (self.name, ip(self.a), self.sp, ip(self.b), self.dp, sid, ', raw: true' if self.raw else '')
         elif kind == 'gre':
             self.et = r.choice([0x6558, 0x0800, 0, 0xffff, 0x88be, r.below(65536)])
             self.decl = 'let %s = gre::session(%s, %s, %d%s);' % (self.name, ip(self.a), ip(self.b), self.et, ', raw: true' if self.raw else '')
@@ -163,8 +164,66 @@ def check(c, r, layer_kinds, nstmts, tag, big_ok=False, huge=False):
     c.case(key, dict(kind=tag, layers=[(s.kind, s.raw) for s in sessions], stmts=nstmts, src=src_enc.decode()[:600]) if key else None)
 
 
+def check_multi(c, r, kind, tag):
+    """several sessions of ONE kind in one program, mostly with the same (default) parameters, used in turn: every session is
+    its own object - its header parameters are what IT was created with and its sequence numbers count ITS packets"""
+    n = 2 + r.below(3)
+    sessions = []
+    for i in range(n):
+        ss = Sess(kind, i, r)
+        if kind == 'vxlan' and r.chance(2, 3):
+            ss.vni = 0
+            ss.decl = 'let %s = vxlan::session(%s:%d, %s:%d%s%s);' % (ss.name, ip(ss.a), ss.sp, ip(ss.b), ss.dp, r.choice(['', ', sessionid: 0']), ', raw: true' if ss.raw else '')
+        sessions.append(ss)
+    head = ['import ipv4;', 'import eth;', 'import vxlan;', 'import gre;', 'import erspan1;', 'import erspan2;']
+    body, used, inner = [], [], []
+    for k in range(2 + r.below(8)):
+        ss = r.choice(sessions)
+        fr = bytes([2, 0, 0, 0, 0, 2, 2, 0, 0, 0, 0, 1]) + r.bytes(2 + r.below(20))
+        e = 'eth::frame("|020000000001|", "|020000000002|", ethertype: %d%s)' % (int.from_bytes(fr[12:14], 'big'), ', "|%s|"' % fr[14:].hex() if len(fr) > 14 else '')
+        w, pi = ss.wrap(e, r, True)
+        body.append(w + ';'); used.append((ss, pi)); inner.append(fr)
+    src = ('\n'.join(head + [x.decl for x in sessions] + body) + '\n').encode()
+    impl, model = progdiff.run_both(c, src)
+    progdiff.compare(c, src, impl, model, 'tunnel-multi')
+    rep = dict(src=src.decode()[:3000])
+    key = None
+    if impl['outcome'][0] == 'success':
+        outer = [x[1] for x in progdiff.pcap_records(impl['file'] or b'')]
+        if len(outer) != len(used):
+            c.violation('tunnel:count', '%d encapsulating statements became %d packets' % (len(used), len(outer)), rep)
+        else:
+            counts = {x.name: 0 for x in sessions}
+            for i, (o, (ss, pi), inn) in enumerate(zip(outer, used, inner)):
+                a = c.model.ask('oracle decap %s %s' % (ss.kind, sh_hex(o if ss.raw else o[14:])))
+                if not a.startswith('ok'):
+                    c.violation('tunnel:%s:undecodable' % ss.kind, 'Spec decoder rejects outer packet %d' % i, rep); continue
+                f = kv(a)
+                want = {}
+                if kind == 'vxlan': want = dict(sport=str(ss.sp), dport=str(ss.dp), vni=str(ss.vni))
+                elif kind == 'gre': want = dict(flags='0', proto=str(ss.et), seq='-')
+                elif kind == 'erspan2':
+                    want = dict(seq=str(counts[ss.name]), ver='1', session='0')
+                    if pi is not None: want['index'] = str(pi)
+                bad = [k for k in want if f.get(k) != want[k]]
+                if bad:
+                    c.violation('tunnel:%s:%s' % (kind, ','.join(bad)), 'with %d sessions in one program, header field(s) %s of packet %d (session %s): got %s want %s'
+                                % (n, bad, i, ss.name, {k: f.get(k) for k in bad}, {k: want[k] for k in bad}), rep)
+                counts[ss.name] += 1
+                if core.unhex(f['inner']) != inn:
+                    c.violation('tunnel:payload', 'payload of outer packet %d differs from the inner frame' % i, rep)
+            c.traces_validated += 1
+            key = ('multi', kind, n, len(outer))
+    elif impl['outcome'][0] == 'panic':
+        c.violation('tunnel:panic', 'implementation panicked: %s' % (impl['outcome'][1],), rep)
+    c.count('several-sessions:' + kind)
+    c.case(key, dict(kind=tag, sessions=n, src=src.decode()[:600]) if key else None)
+
+
 def campaign(c):
     c.rule = RULE
+    for j in range(16 if c.quick else 240):
+        check_multi(c, c.rng.fork('multi%d' % j), KINDS[j % 4], 'several-sessions')
     import itertools
     depth = 2 if c.quick else 3
     i = 0
